@@ -95,7 +95,13 @@ def dedupView (op : DedupOp) (key : Option (List FSpec)) (bs : Option Nat) (t : 
       | _ => .fail [hdr] e
     | .ok idx =>
       let sorted := sortRows (rowLe idx false) bs rows
-      if sorted.any (fun r => idx.any (fun i => r.length ≤ i)) then .fail [outHdr] .index else
+      -- `iterduplicates` / `iterconflicts` / `distinct(count=…)` only evaluate the raw key once there is a second row
+      let keyed : Bool := match op with
+        | .duplicates => decide (2 ≤ sorted.length)
+        | .conflicts _ _ => decide (2 ≤ sorted.length)
+        | .distinctCount _ => decide (2 ≤ sorted.length)
+        | _ => true
+      if keyed && sorted.any (fun r => idx.any (fun i => r.length ≤ i)) then .fail [outHdr] .index else
       let k := getKey idx
       match op with
       | .duplicates => .ok (hdr :: dupRows k sorted)
